@@ -357,6 +357,8 @@ def run_case(case):
     for which, r in runs.items():
         if r["status"] != "ok":
             add("C20:hang", f"execution {which} did not terminate: {r['status']}")
+        elif r.get("wall_hits"):
+            add("C20:hang", f"execution {which}: a call did not return to the event loop within the real-time budget")
     for side in ("a", "b"):
         solo, inter = runs[side][side], runs["ab"][side]
         other = "b" if side == "a" else "a"
